@@ -208,6 +208,11 @@ class SchedulingSolver(BaseModelWithJson):
             self._solver = z3.SolverFor(self.logics)
             print("\t-> SMT solver using logics", self.logics)
 
+        # the time limit is also set on the solver object itself: the global z3
+        # "timeout" option may still hold the value of a previously created solver
+        if self.max_time != "inf":
+            self._solver.set("timeout", int(self.max_time * 1000))
+
         # add all tasks z3 assertions to the solver
         for task in self.problem.tasks.values():
             self.append_z3_assertion(task.get_z3_assertions())
